@@ -200,6 +200,10 @@ def native_replay(cfg, kind, model, digits, npoints, has_base=False):
             acc = (0, 1)
             for x, ptt in zip(vs, pts): acc = fconst.ed_add(acc, fconst.ed_mul(x % Lq, ptt))
             exps.append(acc)
+        elif kind == "precomputed":      # tags t0 (static), u0 (dynamic)
+            t_, u_ = cv[tags.index("t0")], cv[tags.index("u0")]
+            calls.append(("g_precomputed", [int(t_).to_bytes(32, "little"), compress_py(pts[0]), int(u_).to_bytes(32, "little"), compress_py(pts[1])]))
+            exps.append(fconst.ed_add(fconst.ed_mul(t_ % Lq, pts[0]), fconst.ed_mul(u_ % Lq, pts[1])))
         elif kind == "ed_mul":
             calls.append(("g_ed_mul", [compress_py(pts[0]), int(cv[0]).to_bytes(32, "little")])); exps.append(fconst.ed_mul(cv[0] % Lq, pts[0]))
         else: return None, "no native replay for " + kind
